@@ -398,3 +398,38 @@ Fixpoint dec_conn (leak : bool) (k : rpckind) (maxd d : nat) (frames : list (lis
 Definition spec_mark_leaks : bool := false.
 Definition mark_leaks_of (k : rpckind) : bool :=
   match k with GoRpc => false | SpecRpc => spec_mark_leaks end.
+
+(* ------------------------------------------------------------------ *)
+(* discarded bodies and the sticky Decoder                               *)
+
+(* net/rpc discards a body with ReadRequestBody(nil) / ReadResponseBody(nil) (unknown
+   method or service, error reply, reply to a call no longer pending).  rpcCodec.read(nil)
+   SWALLOWS the value (rpc.go:114, d.swallow = the driver's nextValueBytes): in the framing
+   model that is the same [read_value] as a typed read — it consumes exactly the code word,
+   whatever the value's shape — and nothing is built, so it cannot fail on a complete value.
+   A typed Decode can fail (the value does not fit its destination) and then the Decoder is
+   unusable for the rest of the connection (sticky d.err).
+   [via_iface] = the discard is a Decode into a throw-away interface{} instead: it fails on
+   bodies that are fine for their own type but are no interface{} value (a map keyed by a
+   struct or an array: the naked key is unhashable). *)
+Inductive bodymode := BTyped | BDiscard.
+
+Record bodyinfo := mkbody {
+  fits_dest : bool;      (* the value decodes into the type its method declares *)
+  fits_iface : bool }.   (* the value decodes into interface{} under the Handle's options *)
+
+Definition body_ok (via_iface : bool) (m : bodymode) (b : bodyinfo) : bool :=
+  match m with
+  | BTyped => fits_dest b
+  | BDiscard => if via_iface then fits_iface b else true
+  end.
+
+(* the messages one codec reads: index of the first one whose body read fails (after which
+   every read on the connection fails) *)
+Fixpoint conn_bodies (via_iface : bool) (msgs : list (bodymode * bodyinfo)) (i : nat) : option nat :=
+  match msgs with
+  | [] => None
+  | (m, b) :: msgs' => if body_ok via_iface m b then conn_bodies via_iface msgs' (S i) else Some i
+  end.
+
+Definition discard_via_iface : bool := false.
